@@ -52,18 +52,11 @@ Ltac inv_mall H :=
   end.
 
 (* ---------------------------------------------------------------- outside a global transaction *)
-Lemma step_outside : forall px s o obs, o_gtx o = false ->
-  step gen_cfg px s o obs = if bare_accepts o obs then Some s else None.
-Proof.
-  intros px s o obs Hg. unfold step. rewrite cfg_ok_gen, Hg. simpl negb. cbv iota.
-  rewrite route_out. reflexivity.
-Qed.
-
 Definition quiet (obs : list ev) : bool := forallb (fun e => negb (is_extra false e)) obs.
 
 Lemma bare_quiet : forall o obs, bare_accepts o obs = true -> quiet obs = true.
 Proof.
-  intros [k c g okf] obs H. unfold bare_accepts in H. simpl in H.
+  intros [k c g okf vp] obs H. unfold bare_accepts in H. cbn [o_k o_ok] in H.
   destruct k as [ty q| | |]; repeat (apply orb_prop in H; destruct H as [H|H]);
     try (apply andb_prop in H; destruct H as [_ H]);
     try destruct q; unfold direct_tag, stmt_tag in H; inv_mall H; reflexivity.
@@ -78,12 +71,64 @@ Proof.
   apply andb_prop in H. destruct H as [He Ho]. unfold erase_extra in *. simpl. rewrite He. f_equal. auto.
 Qed.
 
-Theorem outside_same : forall px l s, no_gtx l = true -> run gen_cfg px s l = bare_run l.
+Lemma all_local_del : forall c s, all_local s = true -> all_local (tx_del c s) = true.
 Proof.
-  induction l as [|[o obs] l IH]; intros s H; [reflexivity|].
+  induction s as [|[c' v] s IH]; simpl; intro H; [reflexivity|].
+  apply andb_prop in H. destruct H as [H1 H2]. destruct (N.eqb c c'); simpl; [auto|]. rewrite H1. auto.
+Qed.
+
+Lemma all_local_get : forall c s, all_local s = true -> tx_get c s = None \/ tx_get c s = Some TxL.
+Proof.
+  induction s as [|[c' v] s IH]; simpl; intro H; [left; reflexivity|].
+  apply andb_prop in H. destruct H as [H1 H2]. destruct (N.eqb c c'); [|auto].
+  destruct v; [right; reflexivity|discriminate].
+Qed.
+
+(* from a state without an open branch transaction, an operation whose context carries no xid is
+   answered exactly as the bare driver answers it, and the state stays such *)
+Lemma step_local : forall px s o obs, all_local s = true -> o_gtx o = false ->
+  exists s', all_local s' = true /\
+    step gen_cfg px s o obs = if bare_accepts o obs then Some s' else None.
+Proof.
+  intros px s [k c g okf vp] obs L Hg. simpl in Hg. subst g.
+  unfold step. rewrite cfg_ok_gen. cbn [negb o_k o_gtx o_conn o_ok].
+  destruct k as [ty q| | |].
+  - rewrite route_out. exists s. split; [assumption|reflexivity].
+  - exists (if okf then (c, TxL) :: tx_del c s else s). split; [|reflexivity].
+    destruct okf; [|assumption]. simpl. apply all_local_del. assumption.
+  - exists (tx_del c s). split; [apply all_local_del; assumption|].
+    destruct (all_local_get c s L) as [E|E]; rewrite E; reflexivity.
+  - exists (tx_del c s). split; [apply all_local_del; assumption|].
+    destruct (all_local_get c s L) as [E|E]; rewrite E; reflexivity.
+Qed.
+
+Theorem outside_same_local : forall px l s, all_local s = true -> no_gtx l = true ->
+  run gen_cfg px s l = bare_run l.
+Proof.
+  induction l as [|[o obs] l IH]; intros s L H; [reflexivity|].
   simpl in H. apply andb_prop in H. destruct H as [Hg Hl]. apply negb_true_iff in Hg.
-  simpl. rewrite step_outside by assumption. unfold bare_run in *. simpl.
+  destruct (step_local px s o obs L Hg) as (s' & L' & E).
+  simpl. rewrite E. unfold bare_run in *. simpl.
   destruct (bare_accepts o obs); simpl; auto.
+Qed.
+
+Theorem outside_same : forall px l, no_gtx l = true -> run gen_cfg px [] l = bare_run l.
+Proof. intros. apply outside_same_local; auto. Qed.
+
+Lemma run_app : forall c px l1 l2 s,
+  run c px s (l1 ++ l2) = match run_state c px s l1 with Some s' => run c px s' l2 | None => false end.
+Proof.
+  induction l1 as [|[o obs] l1 IH]; intros l2 s; simpl; [reflexivity|].
+  destruct (step c px s o obs); auto.
+Qed.
+
+(* after a global transaction has ended (no branch transaction is left open), the proxy is again the
+   identity, whatever ran before on the same connections *)
+Theorem after_same : forall px pre l s',
+  run_state gen_cfg px [] pre = Some s' -> all_local s' = true -> no_gtx l = true ->
+  run gen_cfg px [] (pre ++ l) = bare_run l.
+Proof.
+  intros px pre l s' R L N. rewrite run_app, R. apply outside_same_local; assumption.
 Qed.
 
 Theorem outside_quiet : forall l, bare_run l = true -> quiet (journal l) = true.
@@ -94,37 +139,72 @@ Proof.
   rewrite (bare_quiet _ _ H1). simpl. apply IH. exact H2.
 Qed.
 
-(* ---------------------------------------------------------------- inside: the extras are the only difference *)
-Lemma is_bracket_out : forall s o, o_gtx o = false -> is_bracket s o = false.
-Proof. intros s [k c g okf] H. simpl in H. subst. unfold is_bracket. simpl. destruct k; reflexivity. Qed.
+(* ---------------------------------------------------------------- the extras are the only difference *)
+Lemma bare_erase : forall o obs, bare_accepts o obs = true -> bare_accepts o (erase_extra false obs) = true.
+Proof. intros o obs H. rewrite quiet_erase; [assumption|]. eapply bare_quiet; eauto. Qed.
 
-Lemma step_extra : forall s o obs s', o_gtx o = true ->
+Ltac accept_inv H :=
+  unfold accept in H;
+  match type of H with
+  | (if mall ?ps ?obs then _ else _) = _ => let M := fresh "M" in destruct (mall ps obs) eqn:M; [|discriminate]
+  end.
+
+Lemma step_extra : forall s o obs s',
   step gen_cfg AT s o obs = Some s' ->
   bare_accepts o (erase_extra (is_bracket s o) obs) = true.
 Proof.
-  intros s [k c g okf] obs s' Hg H. simpl in Hg. subst g.
-  unfold step in H. rewrite cfg_ok_gen in H. simpl in H.
-  destruct okf; simpl in H; [|discriminate].
-  unfold is_bracket, bare_accepts. simpl.
+  intros s [k c g okf vp] obs s' H.
+  unfold step in H. rewrite cfg_ok_gen in H. cbn [negb o_k o_gtx o_conn o_ok o_vp] in H.
+  unfold is_bracket. cbn [o_k o_gtx o_conn].
   destruct k as [ty q| | |].
   - (* statement *)
-    destruct (tx_get c s) as [[d z]|] eqn:Tx.
-    + destruct (route gen_cfg true ty); destruct (img_nz obs); destruct q; simpl in H;
-        try discriminate;
-        match type of H with (if mall ?ps obs then _ else _) = _ => destruct (mall ps obs) eqn:M; [|discriminate] end;
-        unfold direct_tag in M; inv_mall M; reflexivity.
-    + destruct (N.eqb c 0); simpl in H; [|discriminate].
-      destruct (route gen_cfg true ty); destruct (img_nz obs); destruct q; simpl in H;
-        try discriminate;
-        match type of H with (if mall ?ps obs then _ else _) = _ => destruct (mall ps obs) eqn:M; [|discriminate] end;
-        unfold direct_tag, undo_pats in M; simpl in M; inv_mall M; reflexivity.
-  - destruct (tx_get c s); [discriminate|].
-    destruct (mall [ok1 tBegin] obs) eqn:M; [|discriminate]. inv_mall M. reflexivity.
-  - destruct (tx_get c s) as [[d z]|]; [|discriminate].
-    destruct (mall (commit_pats (d, z)) obs) eqn:M; [|discriminate].
-    destruct d; destruct z; unfold commit_pats, undo_pats in M; simpl in M; inv_mall M; reflexivity.
-  - destruct (tx_get c s); [|discriminate].
-    destruct (mall [ok1 tRollback] obs) eqn:M; [|discriminate]. inv_mall M. reflexivity.
+    destruct g; cbn [negb andb] in H |- *.
+    + destruct okf; cbn [negb] in H; [|discriminate].
+      unfold bare_accepts. cbn [o_k o_ok].
+      destruct (tx_get c s) as [[|d z]|] eqn:Tx.
+      * (* local transaction *)
+        destruct vp.
+        -- destruct (route gen_cfg true ty); simpl in H; try discriminate; destruct q;
+             accept_inv H; unfold stmt_tag in M; inv_mall M; reflexivity.
+        -- destruct (route gen_cfg true ty); try discriminate; destruct (img_nz obs); destruct q; simpl in H;
+             try discriminate; accept_inv H; unfold direct_tag in M; inv_mall M; reflexivity.
+      * (* branch transaction *)
+        destruct vp.
+        -- destruct (route gen_cfg true ty); simpl in H; try discriminate; destruct q;
+             accept_inv H; unfold stmt_tag in M; inv_mall M; reflexivity.
+        -- destruct (route gen_cfg true ty); destruct (img_nz obs); destruct q; simpl in H;
+             try discriminate; accept_inv H; unfold direct_tag in M; inv_mall M; reflexivity.
+      * (* autocommit: the proxy's bracket *)
+        destruct (N.eqb c 0); cbn [negb] in H; [|discriminate].
+        destruct vp.
+        -- destruct (route gen_cfg true ty); simpl in H; try discriminate; destruct q;
+             accept_inv H; unfold stmt_tag in M; simpl in M; inv_mall M; reflexivity.
+        -- destruct (route gen_cfg true ty); destruct (img_nz obs); destruct q; simpl in H;
+             try discriminate; accept_inv H; unfold direct_tag, undo_pats in M; simpl in M; inv_mall M; reflexivity.
+    + rewrite route_out in H.
+      destruct (bare_accepts {| o_k := OStmt ty q; o_conn := c; o_gtx := false; o_ok := okf; o_vp := vp |} obs) eqn:B; [|discriminate].
+      apply bare_erase. assumption.
+  - (* begin *)
+    destruct g; cbn [negb] in H.
+    + destruct (tx_get c s); [discriminate|]. destruct okf; [|discriminate].
+      accept_inv H. inv_mall M. reflexivity.
+    + destruct (bare_accepts {| o_k := OBegin; o_conn := c; o_gtx := false; o_ok := okf; o_vp := vp |} obs) eqn:B; [|discriminate].
+      apply bare_erase. assumption.
+  - (* commit *)
+    destruct (tx_get c s) as [[|d z]|].
+    + destruct (bare_accepts {| o_k := OCommit; o_conn := c; o_gtx := g; o_ok := okf; o_vp := vp |} obs) eqn:B; [|discriminate].
+      apply bare_erase. assumption.
+    + destruct okf; [|discriminate]. accept_inv H.
+      destruct d; destruct z; unfold commit_pats, undo_pats in M; simpl in M; inv_mall M; reflexivity.
+    + destruct (bare_accepts {| o_k := OCommit; o_conn := c; o_gtx := g; o_ok := okf; o_vp := vp |} obs) eqn:B; [|discriminate].
+      apply bare_erase. assumption.
+  - (* rollback *)
+    destruct (tx_get c s) as [[|d z]|].
+    + destruct (bare_accepts {| o_k := ORollback; o_conn := c; o_gtx := g; o_ok := okf; o_vp := vp |} obs) eqn:B; [|discriminate].
+      apply bare_erase. assumption.
+    + destruct okf; [|discriminate]. accept_inv H. inv_mall M. reflexivity.
+    + destruct (bare_accepts {| o_k := ORollback; o_conn := c; o_gtx := g; o_ok := okf; o_vp := vp |} obs) eqn:B; [|discriminate].
+      apply bare_erase. assumption.
 Qed.
 
 Theorem extra_only : forall l s, run gen_cfg AT s l = true -> bare_run (erased gen_cfg s l) = true.
@@ -132,11 +212,7 @@ Proof.
   induction l as [|[o obs] l IH]; intros s H; [reflexivity|].
   simpl in H. simpl. destruct (step gen_cfg AT s o obs) as [s'|] eqn:St; [|discriminate].
   unfold bare_run. simpl. fold (bare_run (erased gen_cfg s' l)). rewrite (IH _ H), andb_true_r.
-  destruct (o_gtx o) eqn:Hg.
-  - eapply step_extra; eauto.
-  - rewrite step_outside in St by assumption. rewrite is_bracket_out by assumption.
-    destruct (bare_accepts o obs) eqn:B; [|discriminate].
-    rewrite quiet_erase; [assumption|]. eapply bare_quiet; eauto.
+  eapply step_extra; eauto.
 Qed.
 
 Theorem erased_are_extras : forall b obs e, In e obs -> In e (erase_extra b obs) \/ is_extra b e = true.
